@@ -6,7 +6,17 @@ from gast import *
 _IDC = re.compile(r"[A-Za-z0-9_]")
 
 
+SPELL_LOG = None  # when a list: every (char, spelling) chosen, in rendering order (C12 builds the expected AST from it)
+
+
 def spell_char(c, quote, rnd, allow_raw=True):
+    sp = _spell_char(c, quote, rnd, allow_raw)
+    if SPELL_LOG is not None:
+        SPELL_LOG.append((c, sp))
+    return sp
+
+
+def _spell_char(c, quote, rnd, allow_raw=True):
     """one spelling of character c inside a literal delimited by `quote`."""
     o = ord(c)
     opts = []
